@@ -7,27 +7,27 @@ Comps2 == {<<a, b>> : a \in 0..2, b \in 0..2} \ {<<0, 0>>}
 \* (d, t): offsets -1, 2 at 300 K and 0 at 296 K, so every d-vector over {-1, 0, 2} and both equal and
 \* different reference temperatures occur
 DT == {<<MinusOne, 300>>, <<2, 300>>, <<0, 296>>}
-MCKinds == {[x |-> c, d |-> p[1], t |-> p[2]] : c \in Comps2, p \in DT}
+MCKinds == {[x |-> c, d |-> p[1], t |-> p[2], nm |-> 0] : c \in Comps2, p \in DT}
 MCInit == {<<r>> : r \in MCKinds}
-MCExt == {<<[x |-> <<2, 0>>, d |-> MinusOne, t |-> 300], [x |-> <<0, 2>>, d |-> 2, t |-> 300]>>,
-          <<[x |-> <<1, 1>>, d |-> 2, t |-> 300], [x |-> <<1, 1>>, d |-> MinusOne, t |-> 300]>>}
-MCIns == {[x |-> <<1, 2>>, d |-> 2, t |-> 300], [x |-> <<0, 1>>, d |-> 0, t |-> 296]}
-MCIns3 == {[x |-> <<1, 0, 1>>, d |-> 2, t |-> 300], [x |-> <<0, 1, 0>>, d |-> 0, t |-> 296]}
+MCExt == {<<[x |-> <<2, 0>>, d |-> MinusOne, t |-> 300, nm |-> 0], [x |-> <<0, 2>>, d |-> 2, t |-> 300, nm |-> 0]>>,
+          <<[x |-> <<1, 1>>, d |-> 2, t |-> 300, nm |-> 0], [x |-> <<1, 1>>, d |-> MinusOne, t |-> 300, nm |-> 0]>>}
+MCIns == {[x |-> <<1, 2>>, d |-> 2, t |-> 300, nm |-> 0], [x |-> <<0, 1>>, d |-> 0, t |-> 296, nm |-> 0]}
+MCIns3 == {[x |-> <<1, 0, 1>>, d |-> 2, t |-> 300, nm |-> 0], [x |-> <<0, 1, 0>>, d |-> 0, t |-> 296, nm |-> 0]}
 MCSteps == {MinusOne, 1}
 
 \* three descriptors, entries 0..1 (thorough)
 Comps3 == {<<a, b, c>> : a \in 0..1, b \in 0..1, c \in 0..1} \ {<<0, 0, 0>>}
-MCKinds3 == {[x |-> c, d |-> p[1], t |-> p[2]] : c \in Comps3, p \in DT}
+MCKinds3 == {[x |-> c, d |-> p[1], t |-> p[2], nm |-> 0] : c \in Comps3, p \in DT}
 MCInit3 == {<<r>> : r \in MCKinds3}
-MCExt3 == {<<[x |-> <<1, 0, 0>>, d |-> MinusOne, t |-> 300], [x |-> <<0, 1, 1>>, d |-> 2, t |-> 300]>>}
+MCExt3 == {<<[x |-> <<1, 0, 0>>, d |-> MinusOne, t |-> 300, nm |-> 0], [x |-> <<0, 1, 1>>, d |-> 2, t |-> 300, nm |-> 0]>>}
 
 \* small instance whose complete behaviours are replayed into the real object
-K1 == [x |-> <<2, 0>>, d |-> MinusOne, t |-> 300]
-K2 == [x |-> <<2, 1>>, d |-> 2, t |-> 300]
-K3 == [x |-> <<0, 2>>, d |-> 0, t |-> 296]
-K4 == [x |-> <<1, 1>>, d |-> 2, t |-> 300]
-K5 == [x |-> <<2, 2>>, d |-> MinusOne, t |-> 300]
-K6 == [x |-> <<0, 1>>, d |-> 2, t |-> 300]
+K1 == [x |-> <<2, 0>>, d |-> MinusOne, t |-> 300, nm |-> 0]
+K2 == [x |-> <<2, 1>>, d |-> 2, t |-> 300, nm |-> 0]
+K3 == [x |-> <<0, 2>>, d |-> 0, t |-> 296, nm |-> 1]
+K4 == [x |-> <<1, 1>>, d |-> 2, t |-> 300, nm |-> 1]
+K5 == [x |-> <<2, 2>>, d |-> MinusOne, t |-> 300, nm |-> 2]
+K6 == [x |-> <<0, 1>>, d |-> 2, t |-> 300, nm |-> 0]
 BehKinds == {K1, K2, K3, K5}
 BehInit == {<<K1>>, <<K4>>, <<K1, K2>>, <<K2, K5>>, <<K3, K6>>, <<K1, K2, K3>>}
 BehIns == {K4}
@@ -37,15 +37,15 @@ BehExt == {<<K3, K4>>, <<K6, K6>>}
 
 \* square and square rank-deficient 3 x 3 cases with entries up to 8 (C2H6, H2CO, C3H8O = C2H6 + H2CO,
 \* CH4, H2O, C2H4O2 = 2 H2CO over C, H, O): exhaustive and replayed
-S1 == [x |-> <<2, 6, 0>>, d |-> MinusOne, t |-> 300]
-S2 == [x |-> <<1, 2, 1>>, d |-> 2, t |-> 300]
-S3 == [x |-> <<3, 8, 1>>, d |-> 0, t |-> 300]
-S4 == [x |-> <<1, 4, 0>>, d |-> 2, t |-> 296]
-S5 == [x |-> <<0, 2, 1>>, d |-> MinusOne, t |-> 300]
-S6 == [x |-> <<2, 4, 2>>, d |-> MinusOne, t |-> 300]
+S1 == [x |-> <<2, 6, 0>>, d |-> MinusOne, t |-> 300, nm |-> 1]
+S2 == [x |-> <<1, 2, 1>>, d |-> 2, t |-> 300, nm |-> 1]
+S3 == [x |-> <<3, 8, 1>>, d |-> 0, t |-> 300, nm |-> 0]
+S4 == [x |-> <<1, 4, 0>>, d |-> 2, t |-> 296, nm |-> 0]
+S5 == [x |-> <<0, 2, 1>>, d |-> MinusOne, t |-> 300, nm |-> 2]
+S6 == [x |-> <<2, 4, 2>>, d |-> MinusOne, t |-> 300, nm |-> 3]
 SqKinds == {S1, S2, S3, S4, S5, S6}
 SqInit == {<<S1, S2>>, <<S2, S3>>, <<S4, S5>>, <<S1, S2, S3>>, <<S2, S5, S6>>}
 SqIns == {S3}
 SqExt == {<<S2, S3>>}
-View == <<refs, keys, off, tref, fitted, Len(h), h[Len(h)].act>>
+View == <<refs, keys, off, tref, fitted, cache, Len(h), h[Len(h)].act>>
 =============================================================================
